@@ -76,6 +76,13 @@ def run(ctx):
                     order = (first * 12)[:after] + [k for k in word if True]
                     sc = dict(proto=proto, ops=ops, order=order, clients=clients, late={k: after for k in second})
                     T.append(dict(scenario=dict(sc, solo=solo), events=asyncio.run(D.run_schedule(sc))))
+        # an operation with several requests in flight at once (if the implementation splits it): its answers arrive newest first
+        for ops in ([["mget150", 0]], [["mget150", 0], ["get", 0]], [["walkA", 0], ["mget150", 0]]):
+            solo, ex = prep(ops, 1, False)
+            word = [k for k, n in ex.items() for _ in range(n)]
+            for order in distinct_orders(word, 6, rnd):
+                sc = dict(proto=proto, ops=ops, order=list(order), clients=1, lifo=True)
+                T.append(dict(scenario=dict(sc, solo=solo), events=asyncio.run(D.run_schedule(sc))))
         # (a) the clock stands still, so concurrent requests share their request id; (b) the agent answers at once and the network reorders the
         # answers (an older-stamped authentic answer may arrive after a newer one)
         for kw in (dict(freeze=True), dict(eager=True)):
